@@ -49,7 +49,9 @@ def gen_chipdata(rng):
             c['signatures'] = {('%04x' % k): ['SIG_%04X' % k, {str(b): 'bit %d of %x' % (b, k) for b in rng.sample(range(256), 3)}]
                                for k in [0x0001, 0xabcd, 0xffff, rng.randrange(65536)]}
         if rng.random() < 0.8:
-            c['registers'] = {('%06x' % k): ['REG_%06X_WITH_A_LONG_NAME_PAST_25' if k & 1 else 'R%x' % k, {str(i): '%x' % rng.randrange(2 ** 32) for i in rng.sample(range(256), 3)}]
+            # the same register ids and instances exist on every chip model, with a name and addresses of the model's own
+            c['registers'] = {('%06x' % k): [('REG_%06X_WITH_A_LONG_NAME_PAST_25_ON_%s' % (k, ec[:4])) if k & 1 else 'R%x_%s' % (k, ec[:4]),
+                                             {str(i): '%x' % rng.randrange(2 ** 32) for i in [0, 1] + rng.sample(range(2, 256), 2)}]
                               for k in [0x000001, 0xabcdef, rng.randrange(2 ** 24)]}
         chips.append(c)
     return chips
@@ -114,9 +116,11 @@ def run(tier, seed):
                     reqs.append('oe500ud 1 ' + tb(data)); meta.append(('ud', 1, data))
                     # register dump
                     body = b''
-                    nch = rng.choice([0, 1, 2, 4])
-                    for _ in range(nch):
+                    nch = rng.choice([0, 1, 2, 4, 6])
+                    for ci in range(nch):
                         c = rng.choice(chips) if chips and rng.random() < 0.7 else None
+                        if chips and nch >= 4 and ci < len(chips):
+                            c = chips[ci]       # every model once, then an unknown chip: shared register ids under different models
                         ec = int(c['model_ec']['id'], 16) if c else rng.randrange(2 ** 32)
                         nr = rng.choice([0, 1, 3, 6])
                         body += struct.pack('>IHBI', ec, rng.randrange(65536), rng.randrange(256), nr)
@@ -128,6 +132,8 @@ def run(tier, seed):
                                 rid = int(k, 16)
                                 if rng.random() < 0.7:
                                     inst = int(rng.choice(list(c['registers'][k][1])))
+                            elif rng.random() < 0.5:
+                                rid, inst = rng.choice([0x000001, 0xabcdef]), rng.choice([0, 1])
                             sz = rng.choice([1, 2, 8, 8, 255, 3, 0 if rng.random() < 0.1 else 4])
                             body += rid.to_bytes(3, 'big') + bytes([inst, sz]) + bytes(rng.randrange(256) for _ in range(sz))
                     data = struct.pack('>I', nch) + body
